@@ -97,6 +97,16 @@ TrProbe == /\ Is("probe") /\ Ev.r = "ok"
 TrReopen == /\ Is("reopen") /\ Ev.r = "ok"
             /\ Reopen(Ev.cap) /\ SnapOK(boxes) /\ Mark
 
+(* C16: a (multi-recipient) delivery through the manager has returned.  The copies it stored and, *)
+(* when the store refused one, the copies it took back were reported as "add" / "remove" events  *)
+(* of their own.  The transaction is answered ok iff no copy was refused, and a refused           *)
+(* transaction leaves none of its copies behind (what a copy evicted through a cap or the size    *)
+(* limit before it was taken back stays evicted)                                                 *)
+TrDelivered == /\ Is("delivered")
+               /\ (Ev.r = "ok") <=> (Ev.fail_at = 0 \/ Ev.fail_at > Len(Ev.rcpts))
+               /\ (Ev.r # "ok") => \A k \in DOMAIN Ev.copies : Ev.copies[k].id \notin Ids(boxes, Ev.copies[k].mb)
+               /\ UNCHANGED svars /\ SnapOK(boxes) /\ Mark
+
 (* C16: the events a listener received during the behaviour               *)
 Obs == Ev.evs
 Key(e) == [k |-> e.k, mb |-> e.mb, id |-> e.id]
@@ -161,7 +171,7 @@ TrSites == /\ Is("sites")
 (* C10: every following operation runs in a newly started process *)
 TrRestart == /\ Is("restart") /\ Restart /\ SnapOK(boxes) /\ Mark
 
-TraceNext == \/ TrSites \/ TrRestart \/ TrCrash \/ TrEvents \/ TrReset \/ TrAdd \/ TrSeen \/ TrRemove \/ TrPurge \/ TrScan
+TraceNext == \/ TrDelivered \/ TrSites \/ TrRestart \/ TrCrash \/ TrEvents \/ TrReset \/ TrAdd \/ TrSeen \/ TrRemove \/ TrPurge \/ TrScan
              \/ TrGet \/ TrLatest \/ TrList \/ TrVisit \/ TrReopen \/ TrProbe
 
 TraceSpec == TraceInit /\ [][TraceNext]_tvars
